@@ -6,6 +6,7 @@ import os
 
 import vlib
 from checks.common import Check
+from checks.dbcommon import cfg_with, is_known, tla_bool
 
 PROP = "C12"
 KIND_ORDER = ["hist", "other", "badname", "entry", "order", "beyond", "perturb", "remove", "decoy"]
@@ -34,18 +35,25 @@ def run(tier, seed):
     c.cov["trusted_base"] = ["TLC", "harness listing + SHA-256 of the real directory (covered projection)",
                              "MKTree (prediction only)", "serde_json"]
     q = tier == "quick"
+    # the model follows the status of the listed finding (checks/dbcommon.py)
+    known = is_known(PROP, "C12-nested-immutable-dir")
+    now = {"FindPrefersDirectChild": tla_bool(not known), "ExcuseDecoy": tla_bool(known)}
+    c.cov["model_constants"] = now
     # MC: two nodes one atomic change apart, all histories of <= MaxSteps computations
-    c.mc("db", "MC_DbDigest", "MC_DbDigest_quick.cfg" if q else "MC_DbDigest_thorough.cfg",
-         workers=8, timeout=3000, heap="8g")
-    # the proposed fix (prefer the direct child directory) closes the model without any excuse
-    c.mc("db", "MC_DbDigest", "MC_DbDigest_fixed.cfg", name="proposed-fix", workers=8, timeout=1200)
-    # the listed known finding is what the excuse is needed for (stale otherwise)
-    r = c.mc("db", "MC_DbDigest", "MC_DbDigest_unexcused.cfg", name="known-finding-in-model", workers=4, timeout=600)
-    c.cov["stages"]["MC:known-finding-in-model"]["needed"] = (r.violated == "Determined")
-    if r.violated != "Determined":
-        raise vlib.ToolError("the model no longer shows the known finding C12-nested-immutable-dir (stale excuse)")
+    c.mc("db", "MC_DbDigest", cfg_with(c, "MC_DbDigest_quick.cfg" if q else "MC_DbDigest_thorough.cfg", now),
+         name="nodes", workers=8, timeout=3000, heap="8g")
+    if known:
+        # the proposed fix (prefer the direct child directory) closes the model without any excuse
+        c.mc("db", "MC_DbDigest", "MC_DbDigest_fixed.cfg", name="proposed-fix", workers=8, timeout=1200)
+        # the listed known finding is what the excuse is needed for (stale otherwise)
+        r = c.mc("db", "MC_DbDigest", "MC_DbDigest_unexcused.cfg", name="known-finding-in-model", workers=4,
+                 timeout=600)
+        c.cov["stages"]["MC:known-finding-in-model"]["needed"] = (r.violated == "Determined")
+        if r.violated != "Determined":
+            raise vlib.ToolError("the model no longer shows the known finding C12-nested-immutable-dir (stale excuse)")
     # GEN
-    g = c.mc("db", "MC_DbDigestGen", "MC_DbDigestGen_quick.cfg" if q else "MC_DbDigestGen_thorough.cfg",
+    g = c.mc("db", "MC_DbDigestGen",
+             cfg_with(c, "MC_DbDigestGen_quick.cfg" if q else "MC_DbDigestGen_thorough.cfg", now),
              name="GEN", workers=1, timeout=1800, coverage=False)
     cases = vlib.printed_json(g, "CASE")
     if len(cases) < 1500:
